@@ -475,6 +475,19 @@ def near_traces(res, trace_a, trace_b, cfg_a, cfg_b, prop=None):
             raise
 
 
+def fold_cases(res, cfgs, algs, scalar=None):
+    """Sum / Product over iterators of 0..MaxLen items (the fold machine MC_Fold.tla), replayed on the real types of the given algebras."""
+    wd = os.path.join(WORK, res.prop)
+    os.makedirs(wd, exist_ok=True)
+    out = os.path.join(wd, "fold.out")
+    res.add_tlc(run_tlc("MC_Fold", res.tier, out, workers=4))
+    env = {"HX_PROP": res.prop, "HX_ALGS": ",".join(algs)}
+    if scalar:
+        env["HX_SCALAR"] = scalar
+    ops = [f"fold:{a}:{o}:{l}" for a in algs for o in (("product",) if a == "aff" else ("sum", "product")) for l in (0, 1, 3)]
+    replay_bin(res, "fold", out, cfgs, tag="fold", env_extra=env, expect_ops=ops)
+
+
 # trace specifications whose rejected event can be re-executed on its own (or re-recorded deterministically)
 EVENT_REPLAY_MODULES = ("Trace_Lanes", "Trace_Poly", "Trace_Rel", "Trace_C17", "Trace_C06", "Trace_C16", "Trace_C15")
 
@@ -608,7 +621,7 @@ def replay_event(res, path):
 # which harness binary replays a case of a given family (a check may borrow families from another property's machine)
 BIN_OF_FAM = {"acc": "tok", "mat": "tok", "matmove": "tok", "swz": "tok", "cam": "rot", "chain": "rot", "srt": "rot", "rot": "rot",
               "chain20": "chain", "conv": "conv", "move": "conv", "geom": "geom", "hid": "hid", "int": "int", "interp": "interp",
-              "lane": "lane", "lin": "lin", "mask": "mask", "select": "mask", "nopanic": "safe", "slice": "safe", "index": "safe", "serial": "ser"}
+              "lane": "lane", "lin": "lin", "mask": "mask", "select": "mask", "nopanic": "safe", "slice": "safe", "index": "safe", "serial": "ser", "fold": "fold"}
 
 
 def replay_dispatch(res, path, binname, only=None, env_keys=("ty",)):
